@@ -1,9 +1,10 @@
 CONSTANTS
   FlowSet = {"flows/a.yaml", "flows/b.yaml"}
-  Endpoints = {"configuration"}
+  Endpoints = {"configuration", "apply_flows"}
   Methods = {"PUT", "POST"}
   MaxNth = 4
   WithBadB64 = TRUE
+  GwOld = {"none"}
   AnchorFlows = {"flows/a.yaml"}
   Paths <- PathsMC
   Cat <- CatMC
